@@ -40,22 +40,38 @@ type info struct {
 	evals    int
 }
 
+// clearFail removes every failing closure of the sub-pipeline.
+func clearFail(sp *pipes.Spec) {
+	for i := range sp.Stages {
+		sp.Stages[i].Fail = -1
+		if sp.Stages[i].Other != nil {
+			clearFail(sp.Stages[i].Other)
+		}
+	}
+	sp.Terminal.Fail = -1
+}
+
 func normalise(sp *pipes.Spec) {
 	// an error behind an early-stopping consumer's read-ahead window is not claimed:
 	// failing elements only with completely consuming terminals
 	if sp.Terminal.Name == "first" || sp.Terminal.Name == "orderTop" {
-		for i := range sp.Stages {
-			sp.Stages[i].Fail = -1
-			if sp.Stages[i].Other != nil {
-				normalise(sp.Stages[i].Other)
-			}
+		clearFail(sp)
+	}
+	for i := range sp.Stages {
+		if sp.Stages[i].Other != nil {
+			normalise(sp.Stages[i].Other)
 		}
 	}
 	for i := range sp.Stages {
 		if sp.Stages[i].Name == "top" {
-			// top stops early: what is behind it may fail unnoticed
+			// top stops early: what is in front of it may fail unnoticed (also inside the
+			// sub-pipelines that earlier stages merge or concatenate: once a stage runs in
+			// parallel its read-ahead reaches them - finding F27)
 			for j := 0; j < i; j++ {
 				sp.Stages[j].Fail = -1
+				if sp.Stages[j].Other != nil {
+					clearFail(sp.Stages[j].Other)
+				}
 			}
 		}
 	}
